@@ -529,6 +529,24 @@ def param_roles(fn):
     return roles
 
 
+def lazy_ctor_args(F, callee, args):
+    """(rounding data, insignificant digit, tail closure) handed to InsigData::from_digit_and_lazy_trailing_zeros, found by the
+    callee's parameter types so that their order is free"""
+    g = None
+    for k_, f_ in F.fns.items():
+        if k_.endswith('from_digit_and_lazy_trailing_zeros') and not f_.is_closure:
+            g = f_
+    if g is None or len(args) != 3:
+        return tuple(args) if len(args) == 3 else None
+    tys = g.argtys()
+    di = [i for i, t in enumerate(tys) if t.lstrip('&') == 'u8']
+    ri = [i for i, t in enumerate(tys) if re.search(r'NonDigitRoundingData$', t.lstrip('&'))]
+    if len(di) != 1 or len(ri) != 1:
+        return tuple(args)
+    ci = [i for i in range(3) if i not in (di[0], ri[0])][0]
+    return (args[ri[0]], args[di[0]], args[ci])
+
+
 def call_specs(rep, F, rule='NUMERAL-SHAPE'):
     """every layer hands the next one the same number: the digit string is to_str_radix(this.digits, 10) of the very
     decimal passed along, the explicit exponent is -this.scale, the sign is this.sign"""
